@@ -315,12 +315,37 @@ def GlobDecls(c: "CMap", root: "Ns", kind: "Str", m: "DMap") -> "Bool":
                                                          and m[nm] == Ent(c, q, kind)[nm]))))
 
 
-@contract("src.ir.context.Context._get_declarations_glob", trusted=True)
+@contract("src.ir.context.Context._get_declarations_glob")
 def _(self: "Context", namespace: "Ns", decl_type: "Str") -> "DMap":
-    """worklist without a visited set: its contract is assumed here and cross-checked by the bounded stand-in"""
+    """worklist without a visited set.  Ghost set `processed` = namespaces already merged into decls."""
     requires("nonempty-ns", len(namespace) >= 1)
-    ensures("glob", GlobDecls(self._context, take(namespace, 1), decl_type, result))
-
+    ensures("glob", GlobDecls(self._context, take(old(namespace), 1), decl_type, result))
+    local(decls="DMap", namespaces="Seq[Ns]")
+    ghost_local(processed="Set[Ns]")
+    return_hint(lemma("complete", forall(lambda nm, q: implies(
+        NsReach(self._context, take(old(namespace), 1), q) and nm in Ent(self._context, q, decl_type), nm in result))))
+    return_hint(lemma("sound", forall(lambda nm: implies(nm in result, exists(lambda q: (
+        NsReach(self._context, take(old(namespace), 1), q) and nm in Ent(self._context, q, decl_type)
+        and result[nm] == Ent(self._context, q, decl_type)[nm]))))))
+    return_hint(lemma("keys", forall(lambda nm: (nm in result) == exists(lambda q: NsReach(self._context, take(old(namespace), 1), q) and nm in Ent(self._context, q, decl_type)))))
+    entry_hint(lemma("root", (namespace[0],) == take(namespace, 1)))
+    with loop("0"):
+        invariant("wl-reach", forall(lambda p: implies(p in namespaces, len(p) >= 1 and NsReach(
+            self._context, take(old(namespace), 1), p))))
+        invariant("processed-reach", forall(lambda p: implies(p in processed, NsReach(
+            self._context, take(old(namespace), 1), p))))
+        invariant("root", take(old(namespace), 1) in processed or take(old(namespace), 1) in namespaces)
+        invariant("closed", forall(lambda p, nm: implies(
+            p in processed and (nm in Ent(self._context, p, 'funcs') or nm in Ent(self._context, p, 'classes')),
+            (p + (nm,)) in processed or (p + (nm,)) in namespaces)))
+        invariant("covered", forall(lambda p, nm: implies(p in processed and nm in Ent(self._context, p, decl_type),
+                                                          nm in decls)))
+        invariant("sound", forall(lambda nm: implies(nm in decls, exists(lambda q: (
+            NsReach(self._context, take(old(namespace), 1), q) and nm in Ent(self._context, q, decl_type)
+            and decls[nm] == Ent(self._context, q, decl_type)[nm])))))
+        end_hint(assign("processed", set_add(processed, namespace)))
+        exit_hint(induct("NsReach", lambda c, p, q: implies(
+            same(c, self._context) and same(p, take(old(namespace), 1)), q in processed)))
 
 @contract("src.ir.context.Context.get_types")
 def _(self: "Context", namespace: "Ns", only_current: "Bool", glob: "Bool", none: "Bool") -> "DMap":
@@ -500,3 +525,66 @@ def _(context: "Context", namespace: "Ns", decl_name: "Str", limit: "Opt[Ns]") -
             len(namespace) < k2 and k2 <= len(old(namespace)),
             (limit is None or utils.prefix_lst(limit, take(old(namespace), k2)))
             and not HasReal(context._context, take(old(namespace), k2), decl_name))))
+
+
+# ---------------------------------------------------------------- get_namespaces_decls
+@ghost(least_fixpoint=True)
+def NsReachReal(c: "CMap", p: "Ns", q: "Ns") -> "Bool":
+    """as NsReach, but only through functions / classes whose entry is a real (non-None) declaration"""
+    rule("base", forall(lambda c, p: NsReachReal(c, p, p)))
+    rule("step", forall(lambda c, p, q, nm: implies(
+        NsReachReal(c, p, q) and ((nm in Ent(c, q, 'funcs') and Ent(c, q, 'funcs')[nm] is not None) or
+                                  (nm in Ent(c, q, 'classes') and Ent(c, q, 'classes')[nm] is not None)),
+        NsReachReal(c, p, q + (nm,)))))
+
+
+bound(t="Tuple[Any]")
+
+
+@contract("src.ir.context.Context.get_namespaces_decls")
+def _(self: "Context", namespace: "Ns", name: "Str", decl_type: "Str", glob: "Bool") -> "Set[Tuple[Any]]":
+    """pairs (namespace + (name,), declaration) for every namespace reachable from the start namespace
+    (the root when glob) that declares `name` under decl_type"""
+    requires("nonempty-ns", len(namespace) >= 1)
+    ensures("complete", forall(lambda q: implies(
+        NsReachReal(self._context, ite(glob, take(old(namespace), 1), old(namespace)), q)
+        and name in Ent(self._context, q, decl_type),
+        (q + (name,), Ent(self._context, q, decl_type)[name]) in result)))
+    ensures("sound", forall(lambda t: implies(t in result, exists(lambda q: (
+        NsReachReal(self._context, ite(glob, take(old(namespace), 1), old(namespace)), q)
+        and name in Ent(self._context, q, decl_type)
+        and same(t, (q + (name,), Ent(self._context, q, decl_type)[name])))))))
+    local(namespaces="Seq[Ns]", namespaces_decls="Set[Tuple[Any]]", decls="Opt[DMap]")
+    ghost_local(processed="Set[Ns]")
+    entry_hint(lemma("root", (namespace[0],) == take(namespace, 1)))
+    with loop("0"):
+        invariant("wl-reach", forall(lambda p: implies(p in namespaces, len(p) >= 1 and NsReachReal(
+            self._context, ite(glob, take(old(namespace), 1), old(namespace)), p))))
+        invariant("processed-reach", forall(lambda p: implies(p in processed, NsReachReal(
+            self._context, ite(glob, take(old(namespace), 1), old(namespace)), p))))
+        invariant("root", ite(glob, take(old(namespace), 1), old(namespace)) in processed
+                  or ite(glob, take(old(namespace), 1), old(namespace)) in namespaces)
+        invariant("closed", forall(lambda p, nm: implies(
+            p in processed and ((nm in Ent(self._context, p, 'funcs') and Ent(self._context, p, 'funcs')[nm] is not None)
+                                or (nm in Ent(self._context, p, 'classes') and Ent(self._context, p, 'classes')[nm] is not None)),
+            (p + (nm,)) in processed or (p + (nm,)) in namespaces)))
+        invariant("covered", forall(lambda p: implies(
+            p in processed and name in Ent(self._context, p, decl_type),
+            (p + (name,), Ent(self._context, p, decl_type)[name]) in namespaces_decls)))
+        invariant("sound", forall(lambda t: implies(t in namespaces_decls, exists(lambda q: (
+            NsReachReal(self._context, ite(glob, take(old(namespace), 1), old(namespace)), q)
+            and name in Ent(self._context, q, decl_type)
+            and same(t, (q + (name,), Ent(self._context, q, decl_type)[name])))))))
+        end_hint(assign("processed", set_add(processed, namespace)))
+        exit_hint(induct("NsReachReal", lambda c, p, q: implies(
+            same(c, self._context) and same(p, ite(glob, take(old(namespace), 1), old(namespace))), q in processed)))
+    with loop("0.0"):
+        invariant("sound", forall(lambda t: implies(t in namespaces_decls, exists(lambda q: (
+            (NsReachReal(self._context, ite(glob, take(old(namespace), 1), old(namespace)), q)
+             and name in Ent(self._context, q, decl_type)
+             and same(t, (q + (name,), Ent(self._context, q, decl_type)[name]))))))))
+        invariant("covered", forall(lambda p: implies(
+            p in processed and name in Ent(self._context, p, decl_type),
+            (p + (name,), Ent(self._context, p, decl_type)[name]) in namespaces_decls)))
+        invariant("this", forall(lambda j: implies(0 <= j and j < _i0_0 and _s0_0[j] == name,
+                                                   (namespace + (name,), decls[name]) in namespaces_decls)))
